@@ -19,10 +19,16 @@ VERIF = os.path.dirname(os.path.dirname(os.path.dirname(os.path.abspath(__file__
 REPO = os.environ.get('VERIF_REPO', '/repo')
 COQ = os.path.join(VERIF, 'coq')
 if os.path.realpath(REPO) != '/repo':
-  # mutation experiments: a private copy of the Coq tree, so that the regenerated
-  # gen/*.v of a mutated repository never mix with concurrent checks of /repo
-  COQ = '/tmp/verif-coq-' + hashlib.md5(os.path.realpath(REPO).encode()).hexdigest()[:10]
-  subprocess.run(['rsync', '-a', '--delete', '--exclude', 'cases/', os.path.join(VERIF, 'coq') + '/', COQ + '/'], check=True)
+  # mutation experiments: a private copy of the Coq tree per process, so that the regenerated
+  # gen/*.v of a mutated repository never mix with concurrent checks of /repo or of other copies
+  import atexit
+  import shutil
+  COQ = '/tmp/verif-coq-%s-%d' % (hashlib.md5(os.path.realpath(REPO).encode()).hexdigest()[:10], os.getpid())
+  for _attempt in range(3):
+    _rc = subprocess.run(['rsync', '-a', '--delete', '--exclude', 'cases/', os.path.join(VERIF, 'coq') + '/', COQ + '/']).returncode
+    if _rc in (0,):
+      break   # 24 = files vanished while a concurrent build was running: copy again
+  atexit.register(lambda: shutil.rmtree(COQ, ignore_errors=True))
 CASES = os.path.join(COQ, 'cases')
 NPROC = int(os.environ.get('VERIF_JOBS', '16'))
 
